@@ -125,4 +125,37 @@ theorem blockOf_legal (x : Src) (xs : List Src) (hok : okL (x :: xs) = true) (it
   simp only [h1, h2, toSexp, Parser.sym, Sexp.mkSym]
   simp [blockSx]
 
+theorem tokSexp_not_comment (t : Tok) (h : atomOK t = true) : Sexp.isComment (tokSexp (expTok t)) = false := by
+  have htyp := atom_typ t h
+  unfold tokSexp
+  by_cases hs : (expTok t).typ = .symbol
+  · simp [hs, Sexp.isComment]
+  · have hs' : ((expTok t).typ == TokType.symbol) = false := by simpa using hs
+    simp only [hs', Bool.false_eq_true, ↓reduceIte]
+    rcases htyp with h1 | h1 | h1 | h1 | h1 | h1 | h1
+    · exact absurd h1 hs
+    · simp [atomOfTok, h1, Sexp.isComment]
+    · simp only [atomOfTok, h1]
+      cases NumLit.parseInt64 10 (List.filter (fun x => x != '_') (expTok t).str) <;> simp [Sexp.isComment]
+    · simp only [atomOfTok, h1]
+      by_cases hnan : ((expTok t).str == "NaN".toList) = true
+      · simp only [hnan, ↓reduceIte]; rfl
+      · simp only [hnan, Bool.false_eq_true, ↓reduceIte]
+        cases NumLit.parseFloat (expTok t).str <;> simp [Sexp.isComment]
+    · simp [atomOfTok, h1, Sexp.isComment]
+    · simp [atomOfTok, h1, Sexp.isComment]
+    · simp [atomOfTok, h1, Sexp.isComment]
+
+theorem toSexp_not_comment (x : Src) (h : okSrc x = true) : Sexp.isComment (toSexp x) = false := by
+  cases x with
+  | tok t => simpa [toSexp] using tokSexp_not_comment t (by simpa [okSrc] using h)
+  | arr xs => simp [toSexp, Sexp.isComment]
+  | call xs => cases xs <;> simp [toSexp, callList, Sexp.isComment]
+  | block xs => cases xs <;> simp [toSexp, Sexp.isComment]
+
+/-- a non-empty block has a non-empty token array -/
+theorem blockSx_ne_nil (x : Src) (xs : List Src) (hok : okL (x :: xs) = true) : blockSx (x :: xs) ≠ [] := by
+  simp only [okL, Bool.and_eq_true] at hok
+  simp [blockSx, elems, Sexp.listSx, toSexp_not_comment x hok.1]
+
 end ZygoVerif.InfixRead
